@@ -194,12 +194,23 @@ class HistoryRunner:
             n_ops = rng.randint(prof.min_ops, prof.max_ops)
             # seed rows
             n_seed = rng.randint(0, 5) if prof.max_rows <= MAX_ROWS else rng.randint(prof.max_rows // 2, prof.max_rows - 5)
+            seq = 0
+            huge = n_seed > 60
             while n_seed > 60:
                 # big databases are seeded in batches (also exercises insert_multiple with many points)
                 k = rng.choice([37, 64, 129])
                 ps = [gen.gen_point(rng, prof.meas, False, extra_meas=prof.extra_meas, extra_tag_vals=prof.extra_tag_vals, extra_tag_keys=prof.extra_tag_keys, extra_field_keys=prof.extra_field_keys, grid=prof.grid) for _ in range(k)]
+                for sp in ps:
+                    sp["fields"]["seq"] = seq  # a unique sequence number: lets a removal leave exactly N survivors
+                    seq += 1
                 self._write(s, {"op": "insert_multiple", "ps": ps})
                 n_seed -= k
+            if huge and prof.w.get("remove", 0) > 0:
+                # removals that leave exactly 2**k - 1, 2**k, 2**k + 1 survivors (batch / chunk size boundaries)
+                for n_keep in sorted(rng.sample([c for c in (257, 256, 255, 129, 128, 127, 65, 64, 63, 33, 32, 31, 17, 16, 15) if c < seq], 3), reverse=True):
+                    self._write(s, {"op": "remove", "q": ("cmp", "fields", ("seq",), ">=", n_keep)})
+                    res.count("trim_to_exact_size")
+                    self._probe(s)
             for _ in range(max(0, n_seed)):
                 op = {"op": "insert", "p": gen.gen_point(rng, prof.meas, False, extra_meas=prof.extra_meas, extra_tag_vals=prof.extra_tag_vals, extra_tag_keys=prof.extra_tag_keys, extra_field_keys=prof.extra_field_keys, grid=prof.grid)}
                 self._write(s, op)
